@@ -90,7 +90,7 @@ hexs = C02.hexs
 
 def gen_decode(rng, tier):
     """messages for flags = 0: clean ones carry the line the intended values demand"""
-    n = {"quick": 4, "thorough": 150}.get(tier, 1)
+    n = {"quick": 4, "thorough": 50}.get(tier, 1)
     cases = []
     seeds = gen_dns.load_seeds()
     for data, tag in gen_dns.pointer_games(rng) + gen_dns.edge_messages(rng):
@@ -166,7 +166,7 @@ STREAMS = [
     Stream("names", "h_codec", "driver_codec", gen_names, monitor=mon_names, nontrivial=C02.nontrivial,
            compare=C02.compare, opkind=lambda l: l.split()[0]),
     # operational model + intended values (all flag words)
-    Stream("parse", "h_codec", "driver_codec", C02.gen_parse, monitor=mon_intended, nontrivial=C02.nontrivial,
+    Stream("parse", "h_codec", "driver_codec", lambda rng, tier: C02.gen_parse(rng, tier, 0.5), monitor=mon_intended, nontrivial=C02.nontrivial,
            compare=C02.compare, opkind=C02.STREAMS[0].opkind),
     # declarative reference decoder (flags = 0)
     Stream("decode", "h_codec", "driver_codec", gen_decode, monitor=mon_intended, nontrivial=C02.nontrivial,
